@@ -16,7 +16,9 @@ CONSTANTS MaxRestrictions, AudTokens
 
 Seqs(S, n) == UNION { [1..k -> S] : k \in 0..n }
 Restrictions == Seqs(AudTokens, 2)
-Counts == {"absent", "0", "1", "5"}
+\* "neg" is -1, "max" is 9223372036854775807 (legal xs:nonNegativeInteger it is not, an int it is; what the IdP signed is
+\* what the caller gets)
+Counts == {"absent", "0", "1", "5", "neg", "max"}
 ProxyShapes == {[present |-> FALSE, count |-> "absent", aud |-> << >>]} \cup
                [present : {TRUE}, count : Counts, aud : Seqs({"match", "other"}, 2)]
 NoProxy == [present |-> FALSE, count |-> "absent", aud |-> << >>]
@@ -38,7 +40,7 @@ RECURSIVE Loop(_, _, _)
 Loop(cfg, ars, i) ==
    IF i > Len(ars) THEN FALSE
    ELSE IF \E j \in DOMAIN ars[i] : Eq(ars[i][j], cfg.aud) THEN Loop(cfg, ars, i + 1) ELSE TRUE
-CountNum(c) == CASE c = "1" -> 1 [] c = "5" -> 5 [] OTHER -> 0
+CountNum(c) == IF c = "absent" THEN "0" ELSE c       \* the count as a token (an absent Count reads as 0)
 ModelOut(cfg, in) == [res |-> "accept", time |-> in.win # "in", nia |-> Loop(cfg, in.ars, 1), otu |-> in.otu,
                       proxy |-> [present |-> in.proxy.present, count |-> CountNum(in.proxy.count), aud |-> in.proxy.aud]]
 
